@@ -252,6 +252,11 @@ func (c *DirectedCycle) Cycle() ([]int, bool) {
 		cycle = append(cycle, v)
 	}
 
+	// Put the vertices back, so that the cycle can be asked for again.
+	for i := len(cycle) - 1; i >= 0; i-- {
+		c.cycle.Push(cycle[i])
+	}
+
 	return cycle, true
 }
 
